@@ -260,7 +260,7 @@ Proof.
   eapply B_update; [by sproj|exact Hl|]. by rewrite He.
 Qed.
 
-Lemma read_G s fid ts : WF s → G s → G (do_read s fid ts).1.1.
+Lemma read_G s fid cnt ts : WF s → G s → G (do_read s fid cnt ts).1.1.
 Proof.
   intros Hwf HG. unfold do_read.
   destruct (get_ref s fid) as [| |sf [e d]] eqn:Hg; [by cbn..|].
@@ -269,7 +269,7 @@ Proof.
   destruct (Hf h eq_refl) as [Hown _]. rewrite Hown.
   rewrite g_use_noop by apply (G_live _ HG _ _ Hb).
   destruct (_ =? 1); [by cbn|]. destruct (f_dir h); [|by cbn].
-  destruct (f_done h); [by cbn|]. destruct (fs_err _); [by cbn|]. cbn.
+  destruct (f_done h || (cnt =? 0)); [by cbn|]. destruct (fs_err _); [by cbn|]. cbn.
   eapply G_same; [..|exact HG]; sproj; try done; try (by rewrite app_nil_r).
   eapply B_update; [by sproj|exact Hl|]. by rewrite He.
 Qed.
